@@ -224,10 +224,20 @@ func (pxy *UDPProxy) Run() (remoteAddr string, err error) {
 				})
 			}
 
-			pxy.workConn = netpkg.WrapReadWriteCloserToConn(rwc, workConn)
+			newWorkConn := netpkg.WrapReadWriteCloserToConn(rwc, workConn)
+			// The proxy may have been closed while this connection was being fetched (a reader reports the end of
+			// the old connection before Close has closed checkCloseCh): Close will not run again, so release it here.
+			pxy.mu.Lock()
+			if pxy.isClosed {
+				pxy.mu.Unlock()
+				newWorkConn.Close()
+				return
+			}
+			pxy.workConn = newWorkConn
+			pxy.mu.Unlock()
 			ctx, cancel := context.WithCancel(context.Background())
-			go workConnReaderFn(pxy.workConn)
-			go workConnSenderFn(pxy.workConn, ctx)
+			go workConnReaderFn(newWorkConn)
+			go workConnSenderFn(newWorkConn, ctx)
 			_, ok := <-pxy.checkCloseCh
 			cancel()
 			if !ok {
